@@ -127,7 +127,8 @@ CLAIMS.update({
               "callable spline constructor on pixel-index nodes, evaluate on linspace(0, n-1, new) rows first (the result has the requested "
               "shape) and accept an integer size, split complex data as "
               "f(real)+1j f(imag) with the same arguments (also through a shared recursive helper); azimuthal average is a convex combination over nested ring masks with full allocation coverage; "
-              "encircled energy starts at (0,0), is normalised once by the total, uses growing nested apertures. Spline exactness and "
+              "encircled energy starts at (0,0), is normalised once by the total, uses growing nested apertures, and the grid the curve is resampled on "
+              "must reach the last abscissa of the curve (today it stops half way: known finding B5.grid-covers-curve). Spline exactness and "
               "monotone interpolation are not decided."),
         note="Trusted: installed SciPy sources; C14.M1; RectBivariateSpline(s=0) interpolates."),
     "C12": dict(
